@@ -90,18 +90,28 @@ class HObj:
 
 
 class Interp:
-    def __init__(self, classes):
+    def __init__(self, classes, in_lib=False):
         self.em = Emitter()
+        self.lib = Emitter() if in_lib else None
         self.classes = classes          # list of (name, feats list)
         self.feats = {c[0]: set(c[1]) for c in classes}
         self.prev = {}
         prev = None
         for name, feats in classes:
             self.prev[name] = prev
-            self.em.code(class_source(name, set(feats), prev))
+            src = class_source(name, set(feats), prev)
+            if in_lib:
+                # the class lives in an imported module; the helper that takes and returns it stays in the importer
+                cls_src, helper = src.split("\ntake_", 1)
+                self.lib.code("export " + cls_src)
+                self.em.code("import %s from lib" % name)
+                self.em.code("take_" + helper)
+            else:
+                self.em.code(src)
             prev = name
         self.em.code("r0 = 0\nr1 = \"\"")
         self.r0, self.r1 = 0, ""
+        self.helpers = set()
         self.vars = {}      # name -> HObj
         self.order = []
         self.lists = {}     # list var name -> (cls, [HObj])
@@ -147,6 +157,18 @@ class Interp:
             name = self.fresh_var(o)
             em.code("%s = %s(%d)" % (name, op["cls"], op["n"]))
             return True
+        if k == "churn":
+            # objects that die at once: a helper constructs one, calls a method on it and drops it
+            cls = op["cls"]
+            if cls not in self.feats:
+                return False
+            h = "churn_%s" % cls
+            if h not in self.helpers:
+                self.helpers.add(h)
+                em.code("%s = fn(q: int) -> int {\n\tt = %s(q)\n\tt.setn(q + 1)\n\treturn t.add(1) + t.getn()\n}" % (h, cls))
+            em.code("print %s(%d)" % (h, op["n"]))
+            em.out(str(2 * (op["n"] + 2)))
+            return True
         a = self.vars.get(op.get("a"))
         if a is None:
             return False
@@ -191,8 +213,20 @@ class Interp:
             return True
         if k == "opfield":
             sym = op.get("sym", "+")
-            em.code("%s.n %s= %d" % (an, sym, op["v"]))
-            a.n = a.n + op["v"] if sym == "+" else (a.n - op["v"] if sym == "-" else a.n * op["v"])
+            v = op["v"]
+            if sym in ("/", "%") and v == 0:
+                return False
+            em.code("%s.n %s= %d" % (an, sym, v))
+            if sym == "+":
+                a.n = a.n + v
+            elif sym == "-":
+                a.n = a.n - v
+            elif sym == "*":
+                a.n = a.n * v
+            elif sym == "/":
+                a.n = int(a.n / v)
+            else:
+                a.n = a.n - v * int(a.n / v)
             return True
         if k == "sfield":
             if "s" not in f:
@@ -382,6 +416,8 @@ def gen_op(rng, it):
     names = list(it.order)
     if not names or (len(names) < 2 and rng.chance(1, 2)) or rng.chance(1, 8):
         return {"op": "new", "cls": rng.choice([c[0] for c in it.classes]), "n": rng.range(0, 9)}
+    if rng.chance(1, 8):
+        return {"op": "churn", "cls": rng.choice([c[0] for c in it.classes]), "n": rng.range(0, 9)}
     a = rng.choice(names)
     same = [x for x in names if it.vars[x].cls == it.vars[a].cls]
     kind = rng.weighted([("call", 10), ("alias", 2), ("rebind", 1), ("take", 1), ("setfield", 2), ("opfield", 2), ("sfield", 1),
@@ -398,8 +434,8 @@ def gen_op(rng, it):
     elif kind == "readinto":
         op["which"] = rng.choice(["n", "n", "s"])
     elif kind == "opfield":
-        op["sym"] = rng.choice(["+", "+", "-", "*"])
-        op["v"] = rng.range(0, 4) if op["sym"] != "*" else rng.range(0, 2)
+        op["sym"] = rng.choice(["+", "+", "-", "*", "/", "%"])
+        op["v"] = rng.range(0, 4) if op["sym"] in ("+", "-") else (rng.range(0, 2) if op["sym"] == "*" else rng.range(1, 4))
     elif kind == "sfield":
         op["t"] = rng.choice(STRS)
         op["append"] = rng.chance(1, 2)
@@ -433,7 +469,8 @@ def step(it, op):
 
 def generate(rng, max_ops=15):
     classes = gen_classes(rng)
-    it = Interp(classes)
+    in_lib = rng.chance(1, 4)
+    it = Interp(classes, in_lib)
     ops = []
     nops = rng.range(4, max_ops)
     tries = 0
@@ -443,28 +480,33 @@ def generate(rng, max_ops=15):
         if step(it, op):
             ops.append(op)
             it.observe()
-    return {"classes": classes, "ops": ops}
+    return {"classes": classes, "ops": ops, "lib": in_lib}
 
 
 def render(spec):
-    it = Interp(spec["classes"])
+    it = Interp(spec["classes"], bool(spec.get("lib")))
     for op in spec["ops"]:
         if step(it, op):
             it.observe()
+    if it.lib is not None:
+        return {"files": {"main.ms": it.em.program(), "lib.ms": 'print "lib loaded"\n' + it.lib.program()}, "entry": "main.ms",
+                "expect": [("exact", "lib loaded")] + it.em.expect, "fail": None, "unordered": False}
     return it.em.program(), it.em.expect, None, False
 
 
 def shrink(spec):
     ops = spec["ops"]
     for i in range(len(ops) - 1, -1, -1):
-        yield {"classes": spec["classes"], "ops": ops[:i] + ops[i + 1:]}
+        yield {"classes": spec["classes"], "ops": ops[:i] + ops[i + 1:], "lib": spec.get("lib")}
     if len(spec["classes"]) > 1:
         for i in range(len(spec["classes"])):
             used = spec["classes"][i][0]
             rest = spec["classes"][:i] + spec["classes"][i + 1:]
-            yield {"classes": rest, "ops": [o for o in ops if o.get("cls") != used]}
+            yield {"classes": rest, "ops": [o for o in ops if o.get("cls") != used], "lib": spec.get("lib")}
     for i, (name, feats) in enumerate(spec["classes"]):
         for f in feats:
             c = [list(x) for x in spec["classes"]]
             c[i] = [name, [x for x in feats if x != f]]
-            yield {"classes": c, "ops": ops}
+            yield {"classes": c, "ops": ops, "lib": spec.get("lib")}
+    if spec.get("lib"):
+        yield {"classes": spec["classes"], "ops": ops, "lib": False}
